@@ -1,8 +1,9 @@
 """C15 — sort, min/max and the comparison operators agree on one consistent total order.
 
-Decided by: theorems Props/C15.v over Model/Sort.v (sort comparator with explicit
-64-bit wrap-around and panic outcome, insertion sort = Go's sort.Stable below 21
-elements, compareScalars, min/max, sortKeys) and Spec/Order.v.
+Decided by: theorems Props/C15.v over Model/Sort.v (sort comparator, insertion sort = Go's sort.Stable below 21
+elements, compareScalars, min/max, sortKeys; at the repaired state of /repo:
+three-way integer compare, no panic, null = null, numbers before strings) and
+Spec/Order.v.
 Tie: correspondence of the model with the implementation (yqh `multi` op) on
 generated sequences / pairs / maps.  Direct oracle: the implementation's output
 must be a permutation, ordered under the spec order recomputed independently
@@ -94,7 +95,8 @@ def spec_key(d):
     if k in ("int", "intbad", "float"):
         return (2, numval(d))
     if k == "fspecial":
-        return (2, {".inf": float("inf"), "-.inf": float("-inf")}.get(d["sp"], float("inf")))
+        sp = d["sp"].lower()
+        return None if sp == ".nan" else (2, float("-inf") if sp == "-.inf" else float("inf"))
     if k == "str":
         return (3, d["val"].encode("utf-8"))
     return None  # nan
@@ -119,34 +121,34 @@ def int_exact_as_double(d):
         return False
 
 
+DECIMAL = re.compile(r"[-+]?[0-9]+$")
+
+
+def is_nan(d):
+    return d["kind"] == "nan" or (d["kind"] == "fspecial" and d["sp"].lower() == ".nan")
+
+
+def unreadable_int(d):
+    """!!int for the YAML decoder, but neither parseInt64 nor ParseFloat reads the text (0b11, -0x10)"""
+    return d["kind"] == "intbad" and not DECIMAL.match(d["text"])
+
+
 def pair_class(a, b):
     """None if the pair lies in the consistent domain D of Props/C15.v, else the defect class."""
     ka, kb = a["kind"], b["kind"]
-    if ka == "null" and kb == "null":
-        return None if a["text"] == b["text"] else "null-spelling"
     if ka in ("null", "bool") or kb in ("null", "bool"):
         return None
-    if ka == "str" and kb == "str":
-        return None
-    if (ka == "str") != (kb == "str"):
-        return "num-str-text-order"
-    # both numbers
-    ints = [x for x in (a, b) if x["kind"] in ("int", "intbad")]
-    if len(ints) == 2:
-        if ka == "intbad" or kb == "intbad":
-            return "parse-panic"
-        d = int(a["val"]) - int(b["val"])
-        return "int-overflow" if abs(d) >= I63 else None
-    # at least one float-tagged operand: both go through ParseFloat
-    for x in (a, b):
-        if x["kind"] == "fspecial":
-            return "parse-panic"
-        if x["kind"] in ("int", "intbad") and not int_floatable(x):
-            return "parse-panic"
-    if ka == "nan" or kb == "nan":
+    if ka == "str" or kb == "str":
+        return None          # strings among themselves by bytes; a number sorts before a string
+    if is_nan(a) or is_nan(b):
         return "nan"
-    for x in ints:
-        if not int_exact_as_double(x):
+    if unreadable_int(a) or unreadable_int(b):
+        return "int-unreadable-text-order"
+    if ka == "int" and kb == "int":
+        return None          # exact int64 comparison
+    # otherwise both operands are read as binary64
+    for x in (a, b):
+        if x["kind"] in ("int", "intbad") and not int_exact_as_double(x):
             return "mixed-precision"
     return None
 
@@ -268,7 +270,7 @@ def gen_scalar(rng, profile):
     if r < 0.65:
         return gen_float(rng)
     if r < 0.7:
-        return mk_fspecial(rng.choice([".inf", "-.inf", ".nan"]))
+        return mk_fspecial(rng.choice([".inf", "-.inf", ".nan", ".Inf", "-.INF", "+.inf", ".NaN"]))
     if r < 0.74:
         return mk_nan()
     if r < 0.78:
@@ -296,7 +298,8 @@ def pool(rng, size):
          mk_int(9), mk_int(10), mk_int(1), mk_int(-2), mk_int(2 ** 63 - 1), mk_int(-(2 ** 63)), mk_int(16, "hex"), mk_int(8, "oct"),
          mk_int(1000, "us"), mk_int(2 ** 53 + 1), mk_int(2 ** 53), mk_int(0),
          mk_float("1.5"), mk_float("1.0"), mk_float("9007199254740992.0"), mk_float("10.0"), mk_float("-0.0"), mk_float("0.1"),
-         mk_float("0.10000000000000001"), mk_float("1e3"), mk_fspecial(".inf"), mk_fspecial(".nan"), mk_nan(), mk_intbad("0b11", 3),
+         mk_float("0.10000000000000001"), mk_float("1e3"), mk_fspecial(".inf"), mk_fspecial("-.inf"), mk_fspecial(".nan"), mk_nan(), mk_intbad("0b11", 3),
+         mk_intbad("18446744073709551615", 2 ** 64 - 1),
          mk_str("5"), mk_str("10"), mk_str("a"), mk_str("B"), mk_str(""), mk_str("ab"), mk_str("é"), mk_str("~")]
     while len(p) < size:
         d = gen_scalar(rng, "adversarial")
@@ -386,9 +389,7 @@ def judge_sort(elems, two, r1, r2):
     k1, v1 = res_json(r1)
     k2, v2 = res_json(r2)
     if k1 == "panic" or k2 == "panic":
-        if "parse-panic" in classes:
-            return "known", {"parse-panic"}, "panic in the sort comparator"
-        return "violation", classes, "sort panicked on operands that all parse"
+        return "violation", classes, "the sort comparator panicked"
     if k1 != "ok" or k2 != "ok":
         return "violation", classes, "sort_by failed: %r %r" % ((k1, v1), (k2, v2))
     if sorted(v1) != list(range(n)):
@@ -533,15 +534,9 @@ def yq_out(doc, expr, fmt="json"):
 
 
 def replay_known(chk):
-    rc, o, e = yq_out("[9223372036854775807, -2, 1]", "sort")
-    if rc == 0 and o == "[9223372036854775807,-2,1]":
-        chk.known_finding("int-overflow", "[9223372036854775807, -2, 1] | sort -> " + o)
-    rc, o, e = yq_out("[0x10, 1.5]", "sort")
-    if rc != 0 and "panic" in e:
-        chk.known_finding("parse-panic", "[0x10, 1.5] | sort panics")
-    rc, o, e = yq_out('[10, "5", 9]', "sort")
-    if rc == 0 and o == '[10,"5",9]':
-        chk.known_finding("num-str-text-order", '[10, "5", 9] | sort -> ' + o)
+    rc, o, e = yq_out("[0b11, 1, -0x10, -20]", "sort | map(to_string)")
+    if rc == 0 and o == '["-0x10","-20","0b11","1"]':
+        chk.known_finding("int-unreadable-text-order", "[0b11, 1, -0x10, -20] | sort -> " + o)
     rc, o, e = yq_out("[9007199254740993, 9007199254740992.0, 9007199254740992]", "sort | map(to_string)")
     if rc == 0 and o.startswith('["9007199254740993"'):
         chk.known_finding("mixed-precision", "[9007199254740993, 9007199254740992.0, 9007199254740992] | sort -> " + o)
@@ -549,9 +544,6 @@ def replay_known(chk):
     rc2, o2, _ = yq_out("[1.0, !!float nan]", "sort | map(to_string)")
     if rc1 == 0 and rc2 == 0 and o1 == '["nan","1.0"]' and o2 == '["1.0","nan"]':
         chk.known_finding("nan", "[!!float nan, 1.0] | sort keeps either input order")
-    rc, o, e = yq_out("[{k: ~, i: 0}, {k: null, i: 1}]", "sort_by(.k) | map(.i)")
-    if rc == 0 and o == "[1,0]":
-        chk.known_finding("null-spelling", "sort_by(.k) on [{k: ~}, {k: null}] swaps the two nulls")
     rc1, o1, _ = yq_out("[1, null]", "min")
     rc2, o2, _ = yq_out("[null, 1]", "min")
     rc3, o3, _ = yq_out("[null, 1]", ".[0] < .[1]")
@@ -598,7 +590,16 @@ def run(chk):
     broken = []
     if not proved:
         broken.append("proof obligations of Props/C15.v do not check: " + plog[-800:])
+    import time as _t
+    phase = {}
+    _t0 = [_t.time()]
+
+    def mark(name):
+        phase[name] = round(_t.time() - _t0[0], 1)
+        _t0[0] = _t.time()
+    mark("prove")
     replay_known(chk)
+    mark("known_findings")
     disagreements = []
     stats = {"sort_lists": 0, "sort_lists_clean": 0, "sort_lists_long": 0, "pairs": 0, "ops_pairs": 0, "superl": 0, "sort_keys": 0,
              "known_class_hits": {}, "law_violations_by_class": {}, "tag_mismatch_skipped": 0}
@@ -619,11 +620,11 @@ def run(chk):
             stats["known_class_hits"][c] = stats["known_class_hits"].get(c, 0) + 1
 
     # ---------------- sort_by on generated sequences ----------------
-    n_lists = 12000 if thorough else 1400
+    n_lists = 12000 if thorough else 1000
     cases = []
     for ci in range(n_lists):
         long_case = rng.random() < 0.08
-        profile, base = gen_list(rng, 60 if long_case else 20)
+        profile, base = gen_list(rng, (60 if thorough else 45) if long_case else 20)
         two = rng.random() < 0.2
         elems = []
         for s in base:
@@ -680,6 +681,7 @@ def run(chk):
         for i, mo in mism:
             disagreements.append(("sort_by", coq_cases[i][2]["doc"], repr(coq_cases[i][1]), repr(mo)))
 
+    mark("sort_by")
     # ---------------- plain sort on scalars (texts come back, no float formatting) ----------------
     plain = []
     for _ in range(4000 if thorough else 400):
@@ -709,6 +711,7 @@ def run(chk):
         for i, mo in mism:
             disagreements.append(("sort", pc[i][2], repr(pc[i][1]), repr(mo)))
 
+    mark("plain_sort")
     # ---------------- all ordered pairs and the order laws on all triples over a pool ----------------
     P = pool(rng, 90 if thorough else 40)
     pdoc = flow_elems([{"k": s} for s in P])
@@ -745,10 +748,7 @@ def run(chk):
             cls = pair_class(P[a], P[b])
             rp = {"kind": "sort", "elems": [{"k": P[a]}, {"k": P[b]}], "two": False, "doc": flow_seq([P[a], P[b]])}
             if PN.get((a, b)) or PN.get((b, a)):
-                if cls == "parse-panic":
-                    known_or_viol(cls, rp, "panic")
-                else:
-                    viol(rp, "comparator panics on a pair that parses")
+                viol(rp, "the sort comparator panics")
                 continue
             ka, kb = spec_key(P[a]), spec_key(P[b])
             if ka is None or kb is None:
@@ -797,6 +797,7 @@ def run(chk):
                         viol({"kind": "sort", "elems": [{"k": P[a]}, {"k": P[b]}, {"k": P[c]}], "two": False}, "transitivity fails on a clean triple")
     stats["triples_checked"] = ntrip
 
+    mark("pairs_and_laws")
     # ---------------- operators on all ordered pairs of the pool ----------------
     OP = [s for s in P if not (s["kind"] == "str" and re.match(r"\d{4}-", s["val"]))]
     odoc = flow_seq(OP)
@@ -825,6 +826,7 @@ def run(chk):
         for i, mo in mism:
             disagreements.append(("ops", oc[i][2]["doc"], repr(oc[i][1]), repr(mo)))
 
+    mark("operators")
     # ---------------- min / max ----------------
     sl = []
     for _ in range(3000 if thorough else 300):
@@ -863,6 +865,7 @@ def run(chk):
             for i, mo in mism:
                 disagreements.append(("max" if greater else "min", mc[greater][i][2]["doc"], repr(mc[greater][i][1]), repr(mo)))
 
+    mark("min_max")
     # ---------------- sort_keys(..) ----------------
     trees = [gen_tree(rng) for _ in range(3000 if thorough else 300)]
     trees = [t for t in trees if isinstance(t, (dict, list))]
@@ -884,6 +887,8 @@ def run(chk):
         for i, mo in mism:
             disagreements.append(("sort_keys", kc[i][2], repr(kc[i][1]), repr(mo)))
 
+    mark("sort_keys")
+    chk.extra["phase_s"] = phase
     # ---------------- verdict ----------------
     if stats["tag_mismatch_skipped"] > 0.02 * max(1, len(cases)):
         broken.append("the YAML decoder tags %d generated scalars differently from the generator's expectation" % stats["tag_mismatch_skipped"])
